@@ -304,7 +304,7 @@ class C16(core.Property):
     audit_imports = ["HappyProofs.C16.Props"]
     lean_files = ["HappyModel/C16/*.lean", "HappyProofs/C16/*.lean", "HappyModel/Proto.lean", "Driver/C16.lean"]
     theorems = []
-    quick_cases = 6000
+    quick_cases = 3000
     thorough_cases = 60000
     rule = ("family policy: ≤150 direct calls (on_access/on_insert/on_remove/evict/clear) on one of the nine policies over ≤4 keys, "
             "80 % following the cache's protocol (insert only untracked keys, evict when full at capacity 1–4), TTL clock readings on the "
@@ -525,26 +525,18 @@ class C16(core.Property):
         fam = case["family"]
         if fam == "policy":
             return self.impl_policy(case)
-        if fam in ("store", "softttl"):
-            return self._trace(case)[0]
+        if fam == "store":
+            out, sched = run_store_sim(case)
+            return out + ["#s " + l for l in sched]
+        if fam == "softttl":
+            out, sched, judge = run_soft_sim(case)
+            return out + ["#s " + l for l in sched] + ["#j " + l for l in judge]
         raise ValueError(fam)
 
-    _cache: dict = {}
-
-    def _trace(self, case):
-        """(transcript, schedule) of the real run; cached because model_block needs the schedule
-        of the same run (GUIDE rule 8) and core.evaluate hands it only the case."""
-        key = json.dumps(case, sort_keys=True) + "|" + str(core.REPO)
-        hit = self._cache.get(key)
-        if hit is None:
-            if len(self._cache) > 20000:
-                self._cache.clear()
-            try:
-                hit = run_store_sim(case) if case["family"] == "store" else run_soft_sim(case)
-            except Exception as e:  # same mapping as core.run_impl_safe, but the schedule is needed too
-                hit = ([f"IMPL-EXC {type(e).__name__}"], [], [])
-            self._cache[key] = hit
-        return hit
+    def compare_view(self, case, impl_out):
+        """lines starting with '#' carry the segment schedule of the real run (input of the model,
+        GUIDE rule 8) and judge-only observations (times); they are not part of the comparison"""
+        return [l for l in impl_out if not l.startswith("#")]
 
     def impl_policy(self, case):
         clock = [0]
@@ -580,15 +572,19 @@ class C16(core.Property):
         return [" ".join(map(str, op)) for op in case["ops"]]
 
     def model_block(self, case, variant):
+        return self.model_block_from_impl(case, variant, None)
+
+    def model_block_from_impl(self, case, variant, impl_out):
         fam = case["family"]
         if fam == "policy":
             return (f"policy {case['policy']} {case['arg']}", self._pol_lines(case))
+        if impl_out is None:
+            impl_out = self.run_impl(case)
+        sched = [l[3:] for l in impl_out if l.startswith("#s ")]
         if fam == "softttl":
-            sched = self._trace(case)[1]
             body = [f"op {i} " + " ".join(map(str, op[1:])) for i, op in enumerate(case["ops"])] + sched
             return (f"softttl {variant} {case['soft']} {case['hard']} {case['cap']}", body)
         if fam == "store":
-            sched = self._trace(case)[1]
             body = self._store_head(case) + sched
             return (f"store {variant} {case['policy']} {case['arg']} {case['cap']} {case['wt']}", body)
         raise ValueError(fam)
@@ -617,11 +613,12 @@ class C16(core.Property):
                 body.append("obs " + o[2:].split(" D")[0])
             return (f"judge-policy {case['policy']} {case['arg']}", body)
         if fam == "softttl":
-            return (f"judge-softttl {case['hard']}", list(self._trace(case)[2]))
+            return (f"judge-softttl {case['hard']}", [l[3:] for l in impl_out if l.startswith("#j ")])
         if fam == "store":
             body = self._store_head(case)
             last_b = ""
             k = 0
+            impl_out = self.compare_view(case, impl_out)
             while k < len(impl_out):
                 l = impl_out[k]
                 if not l.startswith("adv "):
@@ -647,7 +644,7 @@ class C16(core.Property):
             return None
         if fam == "store":
             # non-trivial: at least one eviction or miss fill happened (cache content shrank or a get took two segments on the backing path)
-            if len(impl_out) > 4:
+            if len(self.compare_view(case, impl_out)) > 4:
                 return json.dumps(case, sort_keys=True)
             return None
         return json.dumps(case, sort_keys=True)
